@@ -69,15 +69,16 @@ func (seq *Sequence) Release() error {
 		return nil
 	}
 
-	var buf [8]byte
-	binary.BigEndian.PutUint64(buf[:], seq.next)
-	if err := seq.store.Set(seq.key, buf[:]); err != nil {
-		return err
-	}
-
+	// give the lease up in memory before the mark is written: a write that fails may still have taken
+	// effect (an error or a panic that surfaces after the store applied it, e.g. flushkv's Flush behind
+	// the Set), and numbers served from a lease the store no longer holds would be handed out again.
+	// If the write did not take effect the rest of the lease is wasted, which is always safe.
 	seq.reserved = seq.next
 
-	return nil
+	var buf [8]byte
+	binary.BigEndian.PutUint64(buf[:], seq.next)
+
+	return seq.store.Set(seq.key, buf[:])
 }
 
 func (seq *Sequence) update() error {
